@@ -322,7 +322,13 @@ func Replay(path string) (*ReplayFile, *Violation, error) {
 		pr.Prepare()
 	}
 	st := NewStats()
-	v := p.Check(rf.Scenario, st, rf.Clause)
+	pin := rf.Clause
+	if pin == "fatal" || pin == "race_report" {
+		// the process died in the original run; whatever the scenario shows in a fresh
+		// process (e.g. the oversized allocation that later ran it out of memory) counts
+		pin = ""
+	}
+	v := p.Check(rf.Scenario, st, pin)
 	if v != nil {
 		v.Property = rf.Property
 	}
@@ -451,6 +457,18 @@ func RunProperty(cfg RunConfig) int {
 		} else {
 			// the replay must reproduce in a fresh process before it is reported
 			out, code := runSelf(cfg.Self, 10*time.Minute, "replay", replayPath)
+			if code == 1 && v.Clause == "fatal" && strings.Contains(out, "DIFFERENT ") {
+				// the process died in the batch (state left by earlier inputs), and the same
+				// scenario shows a definite violation of another clause in a fresh process:
+				// report that one
+				if m := regexp.MustCompile(`now clause=(\S+) detail=(.*)`).FindStringSubmatch(out); m != nil {
+					rf.Clause, rf.Detail = m[1], strings.TrimSpace(m[2])
+					v.Clause, v.Detail = rf.Clause, rf.Detail
+					b, _ := json.MarshalIndent(rf, "", " ")
+					_ = os.WriteFile(replayPath, b, 0o644)
+					out, code = runSelf(cfg.Self, 10*time.Minute, "replay", replayPath)
+				}
+			}
 			if code == 1 && strings.Contains(out, "REPRODUCED") {
 				fmt.Printf("violation: clause=%s detail=%s\n", v.Clause, v.Detail)
 				fmt.Printf("VIOLATION property=%s replay=%s\n", cfg.Prop, replayPath)
@@ -602,7 +620,7 @@ func watchdogLimit(tier string) time.Duration {
 		return d
 	}
 	if tier == "quick" {
-		return 90 * time.Second
+		return 4 * time.Minute
 	}
 	return 10 * time.Minute
 }
